@@ -7,13 +7,24 @@ code -> spec: (a) hand-built particles - 1-4 constituents, weights 0..3, centre 
 coordinates, atoms shared between two particles - through the real DoAverageBead (force-field variable center_weight);
 (b) the particles of real DoMapping runs of the C01 universe (real `graph` subgraphs and `mapping_weights`), with and without
 mass weighting; (c) rigid-motion twins (the 24 lattice rotations + integer translations) judged against the same formula.
-The harness converts the float position to round(position * denominator) and rejects any rounding error above 1e-6."""
+The harness converts the float position to round(position * denominator) and rejects any rounding error above 1e-6.
+
+EXTENSION (harness/c09_real.py, spec/MeanWide.tla, spec/BeadTrace.tla): the REAL command line.  bin/martinize2 entry() runs in
+a forked child on tier-0 / tier-1 structures towards martini3001, martini22, martini22p (charge dummies), elnedyn22 (backbone
+particle on CA through null weights), martini30b32 (no centre weight) with inputs that lack atoms / hydrogens, -write-graph /
+-write-repair / -write-canon, -mutate, several chains, -go, -water-bias, a phosphotyrosine; the live system is recorded right
+after DoAverageBead and the coordinates written to cg.pdb are read back.  TLC judges every particle with the exact mean in wide
+integers (WMean; the synthetic family goes through Mean AND WMean, which must agree), the bounding box, the written coordinate
+(stored one rounded, 0.5e-3 A), virtual sites (on their backbone particle), rigidly moved twins of whole runs (lattice rotation
++ translation: the exact mean moves exactly, the stored positions within 2e-6 A) and ONE DoAverageBead object over the real
+systems of force fields with and without a centre weight.  Workers run AND judge their share and return summaries."""
 import itertools
 import multiprocessing as mp
 import random
 
 from . import common, tlc
 from . import c01
+from . import c09_real
 
 PID = 'C09'
 
@@ -135,6 +146,85 @@ def run(tier, seed, ev, vd):
                       'float rounding itself is only bounded by the 1e-6 relative tolerance of the harness',
                       'negative weights are not generated (the statement speaks of non-negative weights)']
     quick = tier == 'quick'
+    ev.rule += (' REAL: every particle of real martinize2 runs (plan in harness/c09_real.plan: the required cases do not depend on '
+                'VERIF_SEED), pairs of runs on rigidly moved inputs, histories of one DoAverageBead object over two force fields.')
+    ev.assumptions += [
+        'real data: atom coordinates are multiples of 0.001 A (PDB input), mapping weights rationals with denominator <= 5040, '
+        'centre weights rationals with denominator <= 1000 (1e-9); the stored position may differ by 1e-6 A from the exact mean, '
+        'the written coordinate by 0.5e-3 A (+1e-6 A) from the stored one',
+        'NAMED EXCLUSION BeadTrace!ChargeDummyMoved: a charge dummy is judged by the mean rule right after DoAverageBead, but its '
+        'WRITTEN coordinate is not compared (LocateChargeDummies places it at random around its anchor afterwards; the statement '
+        'does not say where a dummy goes)',
+        'virtual sites (-go, -water-bias) have no constituents: rule BeadTrace!SiteOk (exactly on the backbone particle of their '
+        'residue, which the harness identifies by chain, residue number and the name BB)',
+        'an atom whose position is NaN counts as an atom without coordinates',
+        'the shipped force fields and mappings are parsed once by the functions entry() calls and handed to the forked runs '
+        '(c11_stages.preload); inputs beyond +-1900 A are not generated',
+        'every planned command succeeds on the current tree: a run that fails is reported as a violation (command-failed), a run '
+        'that does not finish in time as a machinery error']
+    real_cases = c09_real.plan(tier, seed)
+    procs, queue = c09_real.start_workers(real_cases, tlc.NCPU)
+    try:
+        _run_synthetic(tier, seed, ev, vd)
+        summaries = c09_real.collect_workers(procs, queue, 600 if quick else 3000)
+    finally:
+        for p in procs:
+            if p.is_alive():
+                p.kill()
+    _merge_real(summaries, real_cases, ev, vd)
+
+
+def _judge_bridge(events):
+    d, g, verdicts = c09_real.judge([dict(e, kind='avg') for e in events])
+    return d, g, verdicts
+
+
+def _merge_real(summaries, cases, ev, vd):
+    fam = {k: 0 for k in c09_real.FAMILIES}
+    verdicts, unsupported, machinery, history, per_case = {}, [], [], [], []
+    for s in summaries:
+        for k, v in s['fam'].items():
+            fam[k] += v
+        for k, v in s['verdicts'].items():
+            verdicts[k] = verdicts.get(k, 0) + v
+        unsupported += s['unsupported']
+        machinery += s['machinery']
+        history += s['history']
+        per_case += s['cases']
+        ev.states += s['states']
+        ev.transitions += s['transitions']
+        ev.traces += s['events']
+        ev.evaluations += s['events']
+        for c in s['nontrivial']:
+            ev.nontrivial_case(c)
+        for smp in s['samples'][:1]:
+            ev.sample({'kind': 'particle of a real martinize2 run judged by TLC (BeadTrace)', 'event': smp})
+        for kind, scenario, detail in s['violations']:
+            vd.violation(kind, scenario, detail)
+    ev.extra['real_events_by_family'] = fam
+    ev.extra['real_verdicts'] = verdicts
+    ev.extra['real_cases'] = sorted(per_case)
+    ev.extra['real_worker_wall'] = sorted([round(s.get('wall', 0), 1), s.get('case_wall')] for s in summaries)
+    ev.extra['real_unsupported'] = unsupported[:20]
+    ev.extra['real_history_systems'] = history[:6]
+    ev.tlc_runs.append({'run': 'TRACE BeadTrace (real runs, %d JVMs)' % len(summaries), 'events': sum(s['events'] for s in summaries)})
+    if machinery:
+        raise tlc.MachineryError('C09 real data: %s' % '; '.join(machinery[:5]))
+    if unsupported:
+        raise tlc.MachineryError('C09 real data: inputs the model cannot express: %s' % '; '.join(unsupported[:5]))
+    if vd.count() == 0:
+        missing = [k for k, v in fam.items() if v == 0]
+        if missing:
+            raise tlc.MachineryError('vacuous: no real particle in the families %s' % missing)
+        if len(per_case) != len(cases) or any(n == 0 for _c, n in per_case):
+            raise tlc.MachineryError('vacuous: a planned case gave no particle: %s' % [c for c, n in per_case if n == 0])
+        hist = [h for h in history if len({x['center_weight'] for x in h}) == 2 and all(x['n'] > 0 for x in h)]
+        if not hist:
+            raise tlc.MachineryError('vacuous: no history over force fields with and without a centre weight')
+
+
+def _run_synthetic(tier, seed, ev, vd):
+    quick = tier == 'quick'
     n_syn = 1600 if quick else 40000
     n_map = 160 if quick else 4000
     with mp.Pool(tlc.NCPU) as pool:
@@ -142,8 +232,16 @@ def run(tier, seed, ev, vd):
         mapped = pool.map(c01._run_chunk, [(n_map // tlc.NCPU, seed * 37 + i, True) for i in range(tlc.NCPU)])
     events = [e for p in syn for e in p] + [e for p in mapped for e in p if e['kind'] == 'avg']
     shards = common.chunks(events, tlc.NCPU)
-    with mp.Pool(len(shards)) as pool:
+    bridge = [e for p in syn for e in p if not e.get('err')][:600 if quick else 6000]
+    with mp.Pool(len(shards) + 1) as pool:
+        pending = pool.apply_async(_judge_bridge, (bridge,))
         outs = pool.map(_judge, shards)
+        bd, bg, bverdicts = pending.get()
+    ev.states += bd
+    ev.transitions += bg
+    ev.extra['bridge_mean_wide_vs_narrow'] = {'events': len(bridge), 'agree': sum(1 for v in bverdicts if v != 'wide-and-narrow-mean-disagree' and v != 'no-verdict')}
+    if any(v in ('wide-and-narrow-mean-disagree', 'no-verdict') for v in bverdicts) or len(bridge) < 100:
+        raise tlc.MachineryError('the wide mean (MeanWide!WMean) and Mapping!Mean disagree on hand-built particles, or too few were compared')
     fam = {'nan': 0, 'zero-weight-present': 0, 'missing-position': 0, 'mass-weighted': 0, 'zero-mass': 0}
     for shard, (d, g, verdicts) in zip(shards, outs):
         ev.states += d
